@@ -52,6 +52,25 @@ def run(tier, seed):
     texts = [P.prog_text(p) for p in progs]
     impl = S.run_impl(texts)
     model = S.run_model(progs)
+    # K1: the model translator emits the real translator's opcode sequence; K2: the VM model behaves like the build
+    sexps = [P.prog_sexp(p) for p in progs]
+    real_ops = C.harness("ops", texts)
+    model_ops = C.model("ops", sexps)
+    vm_model = [S.model_outcome(m.replace("bug", "bug", 1)) if not m.startswith("bug") else ("bug", None) for m in C.model("vm", sexps)]
+    k1_bad, k2_bad, k1_cmp, in_frag = [], [], 0, 0
+    for t, ro, mo, vm, i in zip(texts, real_ops, model_ops, vm_model, impl):
+        frag, _, mtext = mo.partition(" ")
+        in_frag += frag == "frag"
+        if "ok" in ro and "TRACE" not in t:       # the TRACE text operand is a placeholder in the model
+            k1_cmp += 1
+            if ro["ok"].strip() != mtext.strip():
+                k1_bad.append({"source": t, "real_ops": ro["ok"], "model_ops": mtext})
+        if vm[0] == "bug":
+            k2_bad.append({"source": t, "vm_model": "Bug outcome", "build": i[0]})
+        else:
+            w = S.compare(i, vm)
+            if w and w != "generated text does not parse":
+                k2_bad.append({"source": t, "why": w, "vm_model": vm[0], "build": i[0]})
     outcomes = {"ok": 0, "err": 0, "unsup": 0, "fuel": 0}
     real = []
     gen_problems = []
@@ -76,10 +95,16 @@ def run(tier, seed):
     cov["samples"] = texts[:3]
     cov["traces_validated_against_impl"] = n
     cov["disagreements_checked"] = len(real)
+    cov["k1_opcode_sequences_compared"] = k1_cmp
+    cov["k1_opcode_disagreements"] = len(k1_bad)
+    cov["k2_vm_model_disagreements"] = len(k2_bad)
+    cov["programs_in_proved_fragment"] = in_frag
     ck.assumptions = [
         "the definitional semantics sem/Sem.v was written from the language reference; where the reference is silent the file says which choice it makes",
         "floats: Flocq binary64 in the runner only; float text, float %, regex, import/include/convert/out are outside the model (Unsup, counted not compared)",
         "functions and modules are compared after lowering to NULL (as the build's own result does)",
+        "the theorems are about the model translator/VM (vm/*.v); K1 compares the model translator's opcode sequence with the real one "
+        "and K2 the VM model's outcome with the build on every generated program",
     ]
     if len(gen_problems) > n // 50:
         broken.append({"generator": "more than 2%% of the generated texts do not parse", "example": gen_problems[0]})
@@ -99,8 +124,9 @@ def run(tier, seed):
         ck.violation({"kind": "the build binds different values (or a different success/failure) than the definitional semantics",
                       "failing": {"source": t, "build": i, "semantics": m, "why": S.compare(i, m)},
                       "original": {"source": r0["text"], "why": r0["why"]}, "more": len(real) - 1, "broken": broken})
-    elif broken:
-        ck.violation({"kind": "proof obligation or correspondence no longer checks", "broken": broken, "theorems": thms}, nofail=True)
+    elif broken or k1_bad or k2_bad:
+        ck.violation({"kind": "proof obligation or correspondence no longer checks", "broken": broken, "theorems": thms,
+                      "translator_model_disagreements": k1_bad[:3], "vm_model_disagreements": k2_bad[:3]}, nofail=True)
     return ck.finish()
 
 
